@@ -76,11 +76,12 @@ VARIABLES
     accepted,   \* i -> every message ever pushed to recvChan, in order (history)
     seen,       \* i -> [k -> messages passed to Receive of state k, in order]
     nArr,       \* i -> deliveries attempted so far
+    recvFrom,   \* i -> [j -> how many of member j's state messages were delivered to i]
     rcvErr,     \* i -> number of Receive calls that returned an error
     outcome     \* i -> what Execute returned
 
 vars == <<cfg, start, block, block0, pc, cur, lastEnd, waitReq, initReq, initAct, endReq,
-          registered, queue, accepted, seen, nArr, rcvErr, outcome>>
+          registered, queue, accepted, seen, nArr, recvFrom, rcvErr, outcome>>
 
 NA == -1
 N == Len(cfg)
@@ -116,6 +117,7 @@ Init ==
     /\ accepted = [i \in M |-> <<>>]
     /\ seen = [i \in M |-> [k \in 1..MaxN |-> <<>>]]
     /\ nArr = [i \in M |-> 0]
+    /\ recvFrom = [i \in M |-> [j \in M |-> 0]]
     /\ rcvErr = [i \in M |-> 0]
     /\ outcome = [i \in M |-> Running]
 
@@ -127,7 +129,7 @@ Exec(i) ==
     /\ registered' = [registered EXCEPT ![i] = TRUE]
     /\ waitReq' = [waitReq EXCEPT ![i] = start]
     /\ UNCHANGED <<cfg, start, block0, block, cur, lastEnd, initReq, initAct, endReq, queue,
-                   accepted, seen, nArr, rcvErr, outcome>>
+                   accepted, seen, nArr, recvFrom, rcvErr, outcome>>
 
 \* stateTransition(ctx, state k, lastEnd): initiateDelay := lastEnd + DelayBlocks()
 EnterState(i, k, le) ==
@@ -141,7 +143,7 @@ StartReached(i) ==
     /\ lastEnd' = [lastEnd EXCEPT ![i] = start]
     /\ EnterState(i, 1, start)
     /\ UNCHANGED <<cfg, start, block0, block, cur, initAct, endReq, registered, queue, accepted,
-                   seen, nArr, rcvErr, outcome>>
+                   seen, nArr, recvFrom, rcvErr, outcome>>
 
 \* every error return: cancelCtx() was called, Execute returns (nil, 0, err)
 Fail(i, e) ==
@@ -149,7 +151,7 @@ Fail(i, e) ==
     /\ registered' = [registered EXCEPT ![i] = FALSE]
     /\ outcome' = [outcome EXCEPT ![i] = Failed(e)]
     /\ UNCHANGED <<cfg, start, block0, block, cur, lastEnd, waitReq, initReq, initAct, endReq,
-                   queue, accepted, seen, nArr, rcvErr>>
+                   queue, accepted, seen, nArr, recvFrom, rcvErr>>
 
 FailStart(i)    == "start" \in Faults /\ pc[i] = "waitStart" /\ Fail(i, "start")
 FailDelay(i)    == "delay" \in Faults /\ pc[i] = "delaying" /\ Fail(i, "delay")
@@ -164,7 +166,7 @@ DelayReached(i) ==
     /\ pc' = [pc EXCEPT ![i] = "initiating"]
     /\ initAct' = [initAct EXCEPT ![i][cur[i]] = block]
     /\ UNCHANGED <<cfg, start, block0, block, cur, lastEnd, waitReq, initReq, endReq, registered,
-                   queue, accepted, seen, nArr, rcvErr, outcome>>
+                   queue, accepted, seen, nArr, recvFrom, rcvErr, outcome>>
 
 \* Initiate returned nil; BlockHeightWaiter(initiateDelay + ActiveBlocks())
 InitiateEnd(i) ==
@@ -172,7 +174,7 @@ InitiateEnd(i) ==
     /\ endReq' = [endReq EXCEPT ![i] = initReq[i][cur[i]] + A(cur[i])]
     /\ pc' = [pc EXCEPT ![i] = "active"]
     /\ UNCHANGED <<cfg, start, block0, block, cur, lastEnd, waitReq, initReq, initAct, registered,
-                   queue, accepted, seen, nArr, rcvErr, outcome>>
+                   queue, accepted, seen, nArr, recvFrom, rcvErr, outcome>>
 
 \* case msg := <-recvChan
 HandOff(i) ==
@@ -182,7 +184,7 @@ HandOff(i) ==
     /\ queue' = [queue EXCEPT ![i] = Tail(@)]
     /\ rcvErr' = [rcvErr EXCEPT ![i] = IF Head(queue[i]).bad THEN @ + 1 ELSE @]
     /\ UNCHANGED <<cfg, start, block0, block, pc, cur, lastEnd, waitReq, initReq, initAct, endReq,
-                   registered, accepted, nArr, outcome>>
+                   registered, accepted, nArr, recvFrom, outcome>>
 
 \* case lastStateEndBlockHeight := <-blockWaiter: cancelCtx(); Next() is running
 EndBegin(i) ==
@@ -192,7 +194,7 @@ EndBegin(i) ==
     /\ registered' = [registered EXCEPT ![i] = FALSE]
     /\ pc' = [pc EXCEPT ![i] = "ending"]
     /\ UNCHANGED <<cfg, start, block0, block, cur, waitReq, initReq, initAct, endReq, queue,
-                   accepted, seen, nArr, rcvErr, outcome>>
+                   accepted, seen, nArr, recvFrom, rcvErr, outcome>>
 
 \* Next returned (nextState, nil)
 EndNext(i) ==
@@ -206,19 +208,38 @@ EndNext(i) ==
                /\ EnterState(i, cur[i] + 1, lastEnd[i])
                /\ UNCHANGED outcome
     /\ UNCHANGED <<cfg, start, block0, block, lastEnd, initAct, endReq, queue, accepted, seen,
-                   nArr, rcvErr>>
+                   nArr, recvFrom, rcvErr>>
 
-\* the channel delivers a message to this member
-Arrive(i, b) ==
+\* A message: id = arrival number at this member, bad = Receive will return an
+\* error, at = state current at arrival, ab = chain height at arrival,
+\* tag = 0 for an arbitrary message, k for the message another member sent
+\* from Initiate of its state k.
+Deliver(i, b, tag) ==
     /\ nArr[i] < MaxMsgs
     /\ nArr' = [nArr EXCEPT ![i] = @ + 1]
-    /\ LET m == [id |-> nArr[i] + 1, bad |-> b, at |-> cur[i]] IN
+    /\ LET m == [id |-> nArr[i] + 1, bad |-> b, at |-> cur[i], ab |-> block, tag |-> tag] IN
        IF registered[i]
           THEN /\ queue' = [queue EXCEPT ![i] = Append(@, m)]
                /\ accepted' = [accepted EXCEPT ![i] = Append(@, m)]
           ELSE UNCHANGED <<queue, accepted>>
     /\ UNCHANGED <<cfg, start, block0, block, pc, cur, lastEnd, waitReq, initReq, initAct, endReq,
                    registered, seen, rcvErr, outcome>>
+
+\* the channel delivers some message to this member
+Arrive(i, b) == Deliver(i, b, 0) /\ UNCHANGED recvFrom
+
+\* how many states of member j have completed Initiate (and sent their message)
+SentCount(j) ==
+    CASE pc[j] \in {"idle", "waitStart"} -> 0
+      [] pc[j] \in {"active", "ending", "done"} -> cur[j]
+      [] OTHER -> cur[j] - 1
+
+\* the channel delivers to member i the next message member j sent from Initiate
+ArriveFrom(i, j) ==
+    /\ i # j
+    /\ recvFrom[i][j] < SentCount(j)
+    /\ recvFrom' = [recvFrom EXCEPT ![i][j] = @ + 1]
+    /\ Deliver(i, FALSE, recvFrom[i][j] + 1)
 
 \* does the machine have a step of its own to take at the current height?
 StepEnabled(i) ==
@@ -234,7 +255,7 @@ Mine ==
     /\ Prompt => \A i \in M : ~StepEnabled(i)
     /\ block' = block + 1
     /\ UNCHANGED <<cfg, start, block0, pc, cur, lastEnd, waitReq, initReq, initAct, endReq,
-                   registered, queue, accepted, seen, nArr, rcvErr, outcome>>
+                   registered, queue, accepted, seen, nArr, recvFrom, rcvErr, outcome>>
 
 \* one named top-level disjunct per action (TLC coverage)
 DoExec         == \E i \in M : Exec(i)
@@ -245,6 +266,7 @@ DoHandOff      == \E i \in M : HandOff(i)
 DoEndBegin     == \E i \in M : EndBegin(i)
 DoEndNext      == \E i \in M : EndNext(i)
 DoArrive       == \E i \in M, b \in BadMsgs : Arrive(i, b)
+DoArriveFrom   == \E i, j \in M : ArriveFrom(i, j)
 DoFailStart    == \E i \in M : FailStart(i)
 DoFailDelay    == \E i \in M : FailDelay(i)
 DoFailInitiate == \E i \in M : FailInitiate(i)
@@ -257,7 +279,7 @@ MachineNext(i) ==
 
 Next ==
     \/ Mine \/ DoExec \/ DoStartReached \/ DoDelayReached \/ DoInitiateEnd \/ DoHandOff
-    \/ DoEndBegin \/ DoEndNext \/ DoArrive
+    \/ DoEndBegin \/ DoEndNext \/ DoArrive \/ DoArriveFrom
     \/ DoFailStart \/ DoFailDelay \/ DoFailInitiate \/ DoFailWaiter \/ DoFailNext
 
 Spec == Init /\ [][Next]_vars
@@ -390,6 +412,22 @@ Max(a, b) == IF a >= b THEN a ELSE b
 PromptExact ==
     Prompt => \A i \in M, k \in 1..N :
         initAct[i][k] # NA => initAct[i][k] = Max(NominalInit(k), block0)
+
+\* Why states have a delay: with a prompt scheduler and members started on
+\* time, the message a member sends from Initiate of state k is never handed
+\* to an EARLIER state of another member, unless state k has no delay.
+DelayProtects ==
+    (Prompt /\ block0 <= start) =>
+        \A i \in M, k \in 1..N : \A x \in 1..Len(seen[i][k]) :
+            LET m == seen[i][k][x] IN m.tag > k => D(m.tag) = 0
+
+\* ... and a message that arrives strictly before the nominal end block of the
+\* state that is current (and that state has an active period) is handed to
+\* that very state: it does not cross the boundary.
+InWindowDelivered ==
+    Prompt =>
+        \A i \in M, k \in 1..N : \A x \in 1..Len(seen[i][k]) :
+            LET m == seen[i][k][x] IN (m.ab < NominalEnd(m.at) /\ A(m.at) >= 1) => k = m.at
 
 \* liveness: without faults, if blocks keep coming every member finishes
 AllDone == \A i \in M : pc[i] = "done"
